@@ -29,6 +29,7 @@ import TickitModel.Core.Epics
 import TickitModel.Core.StopProtocol
 import TickitModel.Core.MsgFlatRun
 import TickitModel.Core.RaceRes
+import TickitModel.Core.Registry
 
 open Lean Tickit
 
@@ -607,6 +608,18 @@ def opTcpRes (j : Json) : Json :=
             ("replyLive", toJson s'.replyLive), ("open", toJson s'.openConns)] :: acc)
   go (jarr (jfield j "events")) {} 0 []
 
+/-- the registry of state interfaces (`Core/Registry`): a history of registrations, then queries -/
+def opRegistry (j : Json) : Json :=
+  let ops := (jarr (jfield j "adds")).map (fun a =>
+    (jstr (jfield a "name"), jbool (jfield a "ext"),
+      ({ id := jnat (jfield a "id"), hasProduce := jbool (jfield a "produce"), hasSubscribe := jbool (jfield a "subscribe") } : IfaceClass)))
+  let r := ({} : Registry).run ops
+  Json.mkObj [
+    ("all", outStrs (r.interfaces false)), ("external", outStrs (r.interfaces true)), ("warnings", toJson r.warnings),
+    ("get", Json.arr (((jarr (jfield j "queries")).map (fun q => match r.get (jstr q) with
+      | some (c, p) => Json.arr #[toJson c, toJson p]
+      | none => Json.str "KeyError")).toArray))]
+
 def handleLine (line : String) : String :=
   match Json.parse line with
   | .error e => (Json.mkObj [("err", "parse:" ++ e)]).compress
@@ -633,6 +646,7 @@ def handleLine (line : String) : String :=
       | "http" => opHttp j
       | "epics" => opEpics j
       | "tcpres" => opTcpRes j
+      | "registry" => opRegistry j
       | "ping" => Json.str "pong"
       | _ => Json.mkObj [("err", "bad-op")]
     r.compress
